@@ -90,7 +90,7 @@ var Profiles = map[string]map[string]int{
 	"ons":        {"send": 1, "domain_create": 5, "domain_update": 3, "domain_sale": 4, "domain_purchase": 4, "domain_send": 2, "domain_renew": 3, "domain_delete_sub": 1},
 	"olvm":       {"send": 3, "sendpool": 1, "olvm": 10},
 	"bid": {"send": 1, "domain_create": 4, "domain_update": 1, "domain_sale": 1, "bid_create": 8, "bid_counter_offer": 5, "bid_cancel": 2,
-		"bid_bidder_decision": 4, "bid_owner_decision": 3, "bid_expire": 1},
+		"bid_bidder_decision": 4, "bid_owner_decision": 3, "bid_expire": 2},
 }
 
 var ProfileNames = []string{"mixed", "staking", "evidence", "governance", "delegation", "rewards", "eth", "ons", "olvm", "bid"}
